@@ -188,18 +188,17 @@ theorem make_span_spec (n : Int) (row : Row) (col cols : Int) (v : Cell) (h : Ro
 
 /-- **Refinement, one operation**: on a well-formed buffer `rb` implementing the abstract state `a`, every
     operation yields a well-formed buffer implementing what the cell-wise specification says. -/
-theorem refinement_step (rb : RB) (a : AState) (wf : WF rb) (R : Refines rb a) (o : Op) (safe : OpSafe a o) :
-    WF (RB.step rb o) ∧ Refines (RB.step rb o) (RBAbs.step a o) := step_refines wf R o safe
+theorem refinement_step (rb : RB) (a : AState) (wf : WF rb) (R : Refines rb a) (o : Op) :
+    WF (RB.step rb o) ∧ Refines (RB.step rb o) (RBAbs.step a o) := step_refines wf R o
 
 /-- **Refinement, programs.** -/
-theorem refinement_run (rb : RB) (a : AState) (wf : WF rb) (R : Refines rb a) (prog : List Op) (safe : ProgSafe a prog) :
-    WF (RB.run rb prog) ∧ Refines (RB.run rb prog) (RBAbs.run a prog) := run_refines prog wf R safe
+theorem refinement_run (rb : RB) (a : AState) (wf : WF rb) (R : Refines rb a) (prog : List Op) :
+    WF (RB.run rb prog) ∧ Refines (RB.run rb prog) (RBAbs.run a prog) := run_refines prog wf R
 
 /-- From a fresh buffer. -/
-theorem refinement_new (lines cols g1 g2 : Int) (hl : 0 ≤ lines) (hc : 0 < cols) (prog : List Op)
-    (safe : ProgSafe (AState.new lines cols) prog) :
+theorem refinement_new (lines cols g1 g2 : Int) (hl : 0 ≤ lines) (hc : 0 < cols) (prog : List Op) :
     Refines (RB.run (RB.new lines cols g1 g2) prog) (RBAbs.run (AState.new lines cols) prog) :=
-  (run_refines prog (new_refines lines cols g1 g2 hl hc).1 (new_refines lines cols g1 g2 hl hc).2 safe).2
+  (run_refines prog (new_refines lines cols g1 g2 hl hc).1 (new_refines lines cols g1 g2 hl hc).2).2
 
 /-! ### last writer wins, confinement -/
 
@@ -209,10 +208,9 @@ theorem refinement_new (lines cols g1 g2 : Int) (hl : 0 ≤ lines) (hc : 0 < col
     region and unmasked at that moment, with its own content and the pen of that moment (`RBAbs.paint`), line
     segments OR into line cells (`mergeLine`), and nothing else ever changes a cell; so a cell shows what the
     last such operation put there, and a cell never so covered still shows `skip`. -/
-theorem last_writer_wins (lines cols g1 g2 : Int) (hl : 0 ≤ lines) (hc : 0 < cols) (prog : List Op)
-    (safe : ProgSafe (AState.new lines cols) prog) (L C : Int) :
+theorem last_writer_wins (lines cols g1 g2 : Int) (hl : 0 ≤ lines) (hc : 0 < cols) (prog : List Op) (L C : Int) :
     absContent (RB.run (RB.new lines cols g1 g2) prog) L C = (RBAbs.run (AState.new lines cols) prog).content L C :=
-  ((refinement_new lines cols g1 g2 hl hc prog safe).content L C).symm
+  ((refinement_new lines cols g1 g2 hl hc prog).content L C).symm
 
 /-- **Last writer wins, as a statement about histories.**  Split any program as `pre ++ o :: post`.  If no
     operation of `post` writes the cell `(L, C)` — i.e. covers it, in the coordinates shifted by the translation
@@ -220,19 +218,19 @@ theorem last_writer_wins (lines cols g1 g2 : Int) (hl : 0 ≤ lines) (hc : 0 < c
     the real buffer's cell holds exactly what `o` left in it (by `erase_cellwise`, `text_cellwise`, `paint`:
     `o`'s own content with the pen of that moment if `o` wrote it). -/
 theorem last_writer_wins_trace (lines cols g1 g2 : Int) (hl : 0 ≤ lines) (hc : 0 < cols) (pre post : List Op) (o : Op)
-    (safe : ProgSafe (AState.new lines cols) (pre ++ o :: post)) (L C : Int)
+    (L C : Int)
     (hnw : NeverWritten (RBAbs.step (RBAbs.run (AState.new lines cols) pre) o) post L C) :
     absContent (RB.run (RB.new lines cols g1 g2) (pre ++ o :: post)) L C =
       (RBAbs.step (RBAbs.run (AState.new lines cols) pre) o).content L C := by
-  rw [last_writer_wins lines cols g1 g2 hl hc _ safe L C, absrun_append]
+  rw [last_writer_wins lines cols g1 g2 hl hc _ L C, absrun_append]
   exact neverWritten_unchanged post _ L C hnw
 
 /-- **Cells never covered stay skipped**: if no operation of a program writes the cell, the real buffer's cell
     is still `skip` (in particular every cell outside the buffer, outside every clip, or always masked). -/
 theorem never_written_stays_skip (lines cols g1 g2 : Int) (hl : 0 ≤ lines) (hc : 0 < cols) (prog : List Op)
-    (safe : ProgSafe (AState.new lines cols) prog) (L C : Int) (hnw : NeverWritten (AState.new lines cols) prog L C) :
+    (L C : Int) (hnw : NeverWritten (AState.new lines cols) prog L C) :
     absContent (RB.run (RB.new lines cols g1 g2) prog) L C = .skip := by
-  rw [last_writer_wins lines cols g1 g2 hl hc _ safe L C]
+  rw [last_writer_wins lines cols g1 g2 hl hc _ L C]
   exact neverWritten_unchanged prog _ L C hnw
 
 /-- An operation changes no cell it does not write (specification level; with `last_writer_wins` this is a
@@ -247,10 +245,6 @@ example :
     absContent rb 0 3 = .text Pen.empty [65, 66, 67, 68] 3 ∧ absContent rb 0 1 = .erase Pen.empty ∧
     absContent rb 0 0 = .text Pen.empty [65, 66, 67, 68] 0 ∧ absContent rb 0 5 = .skip := by
   decide +kernel
-
-/-- Non-vacuity of `ProgSafe`: a program with a `save`/`restore` pair that leaves the cursor alone is safe. -/
-example : ProgSafe (AState.new 1 6) [.eraseAt 0 0 3, .save, .eraseAt 0 1 2, .restore] := by
-  simp [ProgSafe, OpSafe, RestoreSafe, RBAbs.step, RBAbs.save, RBAbs.eraseAt, RBAbs.paint, AState.new]
 
 /-- The single-step form, from any well-formed buffer: an absolute erase writes exactly the covered, clipped,
     unmasked cells and leaves the rest of the grid as it was. -/
@@ -309,8 +303,7 @@ theorem line_accumulates (p1 p2 : Pen) (b1 b2 : Nat) (old : Content) :
 theorem confined (rb : RB) (wf : WF rb) (o : Op) (hd : isDraw o = true) (L C : Int)
     (h : (absClipRect rb.clip L C && !absMasked rb L C) = false) :
     absContent (RB.step rb o) L C = absContent rb L C := by
-  have ho : o ≠ .restore := by intro x; rw [x] at hd; simp [isDraw] at hd
-  have R := (step_refines wf (refines_absOf rb) o (opSafe_of_not_restore _ o ho)).2
+  have R := (step_refines wf (refines_absOf rb) o).2
   rw [← R.content L C]
   exact (draw_step (absOf rb) o hd).confined L C h
 
@@ -319,8 +312,7 @@ theorem draw_keeps_aux (rb : RB) (wf : WF rb) (o : Op) (hd : isDraw o = true) :
     (RB.step rb o).xlLine = rb.xlLine ∧ (RB.step rb o).xlCol = rb.xlCol ∧ (RB.step rb o).pen = rb.pen ∧
     (∀ L C, absMasked (RB.step rb o) L C = absMasked rb L C) ∧
     (∀ L C, absClipRect (RB.step rb o).clip L C = absClipRect rb.clip L C) := by
-  have ho : o ≠ .restore := by intro x; rw [x] at hd; simp [isDraw] at hd
-  have R := (step_refines wf (refines_absOf rb) o (opSafe_of_not_restore _ o ho)).2
+  have R := (step_refines wf (refines_absOf rb) o).2
   have F := (draw_step (absOf rb) o hd).frame
   refine ⟨R.xlLine.symm.trans F.xlLine, R.xlCol.symm.trans F.xlCol, R.pen.symm.trans F.pen, fun L C => ?_, fun L C => ?_⟩
   · rw [← R.masked L C, F.masked]; rfl
@@ -328,7 +320,11 @@ theorem draw_keeps_aux (rb : RB) (wf : WF rb) (o : Op) (hd : isDraw o = true) :
 
 /-! ### save / restore -/
 
-/-- The full statement of the save/restore clause of C03. -/
+/-- **Save/restore** (the full clause of C03; it was refuted on the code before the repair 85271b4 — `save` did
+    not record whether the virtual cursor was set — and holds for the repaired code): for every well-formed
+    buffer and every balanced program `p` (restores exactly what it saves, no `reset`) between `save` and
+    `restore`, translation, clip, pen, masks and the virtual cursor — set or unset, and where — are back at their
+    saved values, and the stored content is what `p` left. -/
 def SaveRestoreFull : Prop :=
   ∀ (rb : RB) (p : List Op), WF rb → Balanced p →
     (RB.restore (RB.run (RB.save rb) p)).xlLine = rb.xlLine ∧ (RB.restore (RB.run (RB.save rb) p)).xlCol = rb.xlCol ∧
@@ -338,45 +334,17 @@ def SaveRestoreFull : Prop :=
     getCursor (RB.restore (RB.run (RB.save rb) p)) = getCursor rb ∧
     (∀ L C, absContent (RB.restore (RB.run (RB.save rb) p)) L C = absContent (RB.run (RB.save rb) p) L C)
 
-/-- **Defect of libtickit** (known finding `vc_pos_set_not_saved`): `save` does not record whether the virtual
-    cursor is set.  `save; goto 0 0; restore` on a fresh buffer leaves the cursor *set*. -/
-theorem save_restore_cursor_counterexample : ¬ SaveRestoreFull := by
-  intro h
-  have := (h (RB.new 1 1 0 0) [.goto 0 0] (wf_new 1 1 0 0 (by decide) (by decide)) rfl).2.2.2.2.2.1
-  revert this
-  decide
-
-/-- The same, in the vocabulary of the public API. -/
-theorem save_goto_restore_has_cursorpos :
-    getCursor (RB.restore (RB.goto (RB.save (RB.new 1 1 0 0)) 0 0)) = some (0, 0) ∧ getCursor (RB.new 1 1 0 0) = none := by
-  decide
-
-/-- **Save/restore** (`SaveRestoreFull` under the hypothesis that excludes exactly the trigger of the defect):
-    for every balanced program `p` between `save` and `restore` such that every `restore` of a full frame —
-    inside `p` and the final one — happens with the cursor set exactly if it was set at the matching `save`
-    (`ProgSafe`), translation, clip, pen, masks and the virtual cursor are back at their saved values and the
-    stored content is what `p` left. -/
-theorem save_restore (rb : RB) (p : List Op) (wf : WF rb) (hb : Balanced p)
-    (safe : ProgSafe (absOf rb) (.save :: p ++ [.restore])) :
-    (RB.restore (RB.run (RB.save rb) p)).xlLine = rb.xlLine ∧ (RB.restore (RB.run (RB.save rb) p)).xlCol = rb.xlCol ∧
-    (∀ L C, absClipRect (RB.restore (RB.run (RB.save rb) p)).clip L C = absClipRect rb.clip L C) ∧
-    (RB.restore (RB.run (RB.save rb) p)).pen = rb.pen ∧
-    (∀ L C, absMasked (RB.restore (RB.run (RB.save rb) p)) L C = absMasked rb L C) ∧
-    getCursor (RB.restore (RB.run (RB.save rb) p)) = getCursor rb ∧
-    (∀ L C, absContent (RB.restore (RB.run (RB.save rb) p)) L C = absContent (RB.run (RB.save rb) p) L C) := by
+theorem save_restore : SaveRestoreFull := by
+  intro rb p wf hb
   have e1 : RB.run rb (.save :: p ++ [.restore]) = RB.restore (RB.run (RB.save rb) p) := by
     show RB.run (RB.save rb) (p ++ [.restore]) = _
     rw [run_append]; rfl
   have e2 : RBAbs.run (absOf rb) (.save :: p ++ [.restore]) = RBAbs.restore (RBAbs.run (RBAbs.save (absOf rb)) p) := by
     show RBAbs.run (RBAbs.save (absOf rb)) (p ++ [.restore]) = _
     rw [absrun_append]; rfl
-  have R := (run_refines _ wf (refines_absOf rb) safe).2
+  have R := (run_refines (.save :: p ++ [.restore]) wf (refines_absOf rb)).2
   rw [e1, e2] at R
-  -- the prefix `save :: p`
-  have safe1 : ProgSafe (absOf rb) (.save :: p) := by
-    have := ProgSafe_append (.save :: p) [.restore] (absOf rb) safe
-    exact this.1
-  have R1 := (run_refines (.save :: p) wf (refines_absOf rb) safe1).2
+  have R1 := (run_refines (.save :: p) wf (refines_absOf rb)).2
   have e3 : RB.run rb (.save :: p) = RB.run (RB.save rb) p := rfl
   have e4 : RBAbs.run (absOf rb) (.save :: p) = RBAbs.run (RBAbs.save (absOf rb)) p := rfl
   rw [e3, e4] at R1
@@ -387,16 +355,16 @@ theorem save_restore (rb : RB) (p : List Op) (wf : WF rb) (hb : Balanced p)
   · rw [← R.vc, s6]; rfl
   · rw [← R.content L C, s8, R1.content L C]
 
-/-- The immediate case needs no hypothesis about programs: `restore (save rb)` with the cursor untouched. -/
-example (rb : RB) (wf : WF rb) :
-    (RB.restore (RB.save rb)).xlLine = rb.xlLine ∧ getCursor (RB.restore (RB.save rb)) = getCursor rb := by
-  have safe : ProgSafe (absOf rb) (.save :: [] ++ [.restore]) := by
-    refine ⟨trivial, ?_, trivial⟩
-    show RestoreSafe (RBAbs.save (absOf rb))
-    unfold RestoreSafe RBAbs.save
-    simp
-  have := save_restore rb [] wf rfl safe
-  exact ⟨this.1, this.2.2.2.2.2.1⟩
+/-- Regression for the repaired defect (known finding `vc_pos_set_not_saved`, fixed by 85271b4):
+    `save; goto 0 0; restore` on a fresh buffer leaves the cursor unset again, and `goto; save; ungoto; restore`
+    brings it back. -/
+theorem save_goto_restore_cursor :
+    getCursor (RB.restore (RB.goto (RB.save (RB.new 1 1 0 0)) 0 0)) = none ∧
+    getCursor (RB.restore (RB.ungoto (RB.save (RB.goto (RB.new 1 1 7 7) 0 3)))) = some (0, 3) := by
+  decide
+
+/-- Non-vacuity: a balanced program with a nested pair, cursor moved and unset in between. -/
+example : Balanced [.goto 1 1, .save, .ungoto, .translate 1 1, .restore, .mask ⟨0, 0, 1, 1⟩, .eraseAt 0 0 3] := rfl
 
 /-! ### facts regenerated from the C source on every run (`bin/extract.d/25_rbwidth.py` → `Gen/RBWidth.lean`) -/
 
